@@ -1459,22 +1459,22 @@ class NPProxy(types.ModuleType):
             p = NPProxy(v, prefix + k + ".")
             self.__dict__[k] = p
             return p
-        if callable(v) and not isinstance(v, type):
+        if callable(v) and not isinstance(v, type) and not (isinstance(v, _np.ufunc) and (prefix + k) not in _FUNCS):
             key = prefix + k
-            if key in _FUNCS:
-                h = _FUNCS[key]
+            h = _FUNCS.get(key)
 
-                @functools.wraps(v)
-                def dispatch(*a, _key=key, **kw):
-                    if _any_sym_args(a) or _any_sym_args(tuple(kw.values())):
-                        st = _stub_for(_key)
-                        if st is not None:
-                            return tag(st(*a, **kw))
-                        return tag(h(*a, **kw))
-                    return v(*a, **kw)
+            @functools.wraps(v)
+            def dispatch(*a, _key=key, _h=h, _v=v, **kw):
+                st = _stub_for(_key)
+                if st is not None:
+                    # a contract stub planted by the unit (environment: randomness, compiled back-ends)
+                    return tag(st(*a, **kw))
+                if _h is not None and (_any_sym_args(a) or _any_sym_args(tuple(kw.values()))):
+                    return tag(_h(*a, **kw))
+                return _v(*a, **kw)
 
-                self.__dict__[k] = dispatch
-                return dispatch
+            self.__dict__[k] = dispatch
+            return dispatch
         return v
 
     # ---- creation functions (dtype tolerant)
